@@ -133,6 +133,21 @@ func validFrame(t *rapid.T, di *dialectInfo, o gen.FrameOpts, key *[32]byte) (re
 	if f.V2 && rapid.IntRange(0, 5).Draw(t, "untruncated") == 0 {
 		f.Payload = lay.EncodeFull(val, true) // legal: senders may skip truncation
 	}
+	if rapid.IntRange(0, 4).Draw(t, "dirty_strings") == 0 {
+		// legal as well: whatever a sender left behind the terminator of a string field (the field ends at its
+		// first NUL); such a payload is not the one the library would have produced
+		full := lay.EncodeFull(val, f.V2)
+		if dirtyStrings(t, lay, full, f.V2) {
+			if f.V2 {
+				for len(full) > 1 && full[len(full)-1] == 0 {
+					full = full[:len(full)-1]
+				}
+			}
+			if len(full) <= 255 {
+				f.Payload = full
+			}
+		}
+	}
 	f.Checksum = f.ChecksumFor(lay.CRCExtra)
 	if f.Signed() && key != nil {
 		f.Sig = f.SignatureFor(*key)
@@ -140,9 +155,33 @@ func validFrame(t *rapid.T, di *dialectInfo, o gen.FrameOpts, key *[32]byte) (re
 	return f, lay, val
 }
 
+// dirtyStrings overwrites the bytes after the first NUL of every string field that has room for it with non-zero
+// junk and reports whether it changed anything.
+func dirtyStrings(t *rapid.T, lay *ref.Layout, payload []byte, v2 bool) bool {
+	changed := false
+	off := 0
+	for _, fl := range lay.Fields {
+		if fl.Ext && !v2 {
+			break
+		}
+		size := fl.Size()
+		if fl.IsString && fl.ArrayLen > 1 && off+size <= len(payload) {
+			region := payload[off : off+size]
+			if z := bytes.IndexByte(region, 0); z >= 0 && z+1 < len(region) {
+				for k := z + 1; k < len(region); k++ {
+					region[k] = byte(rapid.IntRange(1, 255).Draw(t, "junk_after_nul"))
+				}
+				changed = true
+			}
+		}
+		off += size
+	}
+	return changed
+}
+
 func TestC02Gate(t *testing.T) {
 	rec := evid.New(t, "C02", "a reference-encoded, reference-checksummed dialect message must be delivered decoded; every single-bit flip of its bytes (plus byte substitutions, checksum swaps, foreign CRC_EXTRA) is fed to the reader and judged by the consumed-span oracle: a frame is delivered only if the bytes consumed are a frame the reference accepts; non-trivial = a damaged frame; distinct by hash of the damaged bytes")
-	rec.Require("flip-header", "flip-payload", "flip-checksum", "valid-delivered", "foreign-crc-extra", "flip-signature-block", "id>=65536", "signed-with-wrong-checksum", "valid-delivered-split")
+	rec.Require("flip-header", "flip-payload", "flip-checksum", "valid-delivered", "foreign-crc-extra", "flip-signature-block", "id>=65536", "signed-with-wrong-checksum", "valid-delivered-split", "non-canonical-frame-re-emitted", "non-canonical-v1-frame-re-emitted")
 	dpool := pool(t)
 	maxFlipLen := 80
 	evid.Check(t, rec, evid.N(5000, 15000), func(t *rapid.T) {
@@ -203,6 +242,34 @@ func TestC02Gate(t *testing.T) {
 			t.Fatalf("a well-formed frame with the reference checksum was not delivered: %s (%s) bytes %x; delivered %d", gen.Describe(f), lay.MsgName, data, len(del))
 		}
 		rec.Case(false, 0, "valid-delivered")
+		// generation: the frame the reader delivered, written again by a writer with the same dialect, carries
+		// the checksum of the bytes that go out (whatever form the payload arrived in)
+		{
+			res, _, herr := readAll(&chunkReader{data: data, failAt: -1}, di.rw, nil, len(data)+2)
+			if herr != nil || len(res) != 1 || res[0].err != nil {
+				t.Fatalf("BROKEN: re-reading the valid frame: %v", herr)
+			}
+			w, werr := writeOne(res[0].fr, di.rw)
+			if werr != nil {
+				t.Fatalf("writing the delivered %s frame again failed: %v", lay.MsgName, werr)
+			}
+			out := w.all()
+			p, nb, perr := ref.Parse(out)
+			if perr != nil || nb != len(out) {
+				t.Fatalf("the delivered %s frame written again is not one whole frame: %x", lay.MsgName, out)
+			}
+			if want := p.ChecksumFor(lay.CRCExtra); p.Checksum != want {
+				evid.ReplayNote("C02", "TestC02Gate", fmt.Sprintf("received %x\nre-emitted %x\nchecksum %#04x, X.25 over the emitted bytes + CRC_EXTRA gives %#04x", data, out, p.Checksum, want))
+				t.Fatalf("%s frame %x read and written again goes out as %x: it carries checksum %#04x, but X.25 over its length..payload plus CRC_EXTRA is %#04x", lay.MsgName, data, out, p.Checksum, want)
+			}
+			canon := lay.Encode(mustDecode(t, lay, f.Payload, f.V2), f.V2)
+			if !bytes.Equal(f.Payload, canon) {
+				rec.Class("non-canonical-frame-re-emitted", 1)
+				if !f.V2 {
+					rec.Class("non-canonical-v1-frame-re-emitted", 1)
+				}
+			}
+		}
 		if f.ID >= 65536 {
 			rec.Class("id>=65536", 1)
 		}
@@ -290,4 +357,12 @@ func TestC02Gate(t *testing.T) {
 			rec.Sample("gate", map[string]interface{}{"message": lay.MsgName, "frame": fmt.Sprintf("%x", data), "flips": len(idx) * 8})
 		}
 	})
+}
+
+func mustDecode(t *rapid.T, lay *ref.Layout, payload []byte, v2 bool) interface{} {
+	v, err := lay.Decode(payload, v2)
+	if err != nil {
+		t.Fatalf("BROKEN: reference cannot decode its own payload: %v", err)
+	}
+	return v
 }
